@@ -166,8 +166,9 @@ func C05(c *Ctx) {
 	c.c05Warn()
 	c.visibilityRules("C05-7")
 	c.noNilVerdictRule("C05-9")
+	c.lookaheadVisibilityRule("C05-10")
 
-	r.Rule("C05-8", "the flag that suppresses the `no match` verdict in the default matcher (a captured bool set by the candidate handler) is only ever set to the constant true, and only when both the destination field and the candidate are struct-typed (member-wise descent was attempted)")
+	r.Rule("C05-8", "the flag that suppresses the `no match` verdict in the default matcher (a captured bool set by the candidate handler) is set only when both the destination field and the candidate are struct-typed (member-wise descent was attempted), and to `error pending ∨ the nested copy produced at least one line` – never unconditionally")
 	nf := 0
 	for _, dm := range c.defaultMatchers() {
 		seen := map[*ssa.Function]bool{}
@@ -202,7 +203,27 @@ func C05(c *Ctx) {
 					}
 					isCand := func(t *core.Term) bool { return t.String() == cand }
 					isDst := func(t *core.Term) bool { return t.Kind == "fv" }
-					ok2 := v.Is("const", "true") && d.Implies(structOf(isCand)) && d.Implies(structOf(isDst))
+					// the value: the constant true (older form) or `err != nil || 0 < len(contents)` computed after the nested copy
+					okVal := v.Is("const", "true")
+					produced := false
+					if v.Kind == "phi" && strings.HasPrefix(v.Name, "||") {
+						okVal = true
+						for _, a := range v.Args {
+							switch {
+							case a.Is("const", "true"): // the short-circuit edge of `err != nil ||`
+							case a.Kind == "binop" && (a.Name == "<" || a.Name == ">") && a.Contains(func(x *core.Term) bool {
+								return x.IsCallTo("builtin:len") && x.Args[0].IsField("model.NestStruct.Contents")
+							}):
+								produced = true
+							default:
+								okVal = false
+							}
+						}
+					}
+					ok2 := okVal && d.Implies(structOf(isCand)) && d.Implies(structOf(isDst))
+					// the flag may only say "handled" when the member-wise copy produced a line or failed
+					r.Check("C05-8", FnKey(h)+":flag:"+fv.Name()+":only-when-produced", c.InstrPos(st), okVal && produced,
+						"the no-match-suppressing flag "+fv.Name()+" is set ("+v.String()+") whether or not the member-wise copy produced anything: a struct field whose members are all invisible (time.Time against sql.NullTime) then gets neither an assignment nor a `no match` line nor a warning")
 					r.Check("C05-8", FnKey(h)+":flag:"+fv.Name(), c.InstrPos(st), ok2,
 						"the no-match-suppressing flag "+fv.Name()+" can be set ("+v.String()+") without both sides being structs: the destination field would then get neither an assignment nor a `no match` line nor a warning; reach: "+d.Describe(c.O))
 				}
